@@ -113,7 +113,8 @@ Definition mbstowcs_s (c : cfg) (utf8 : bool) (retvalp dest dmax src len destbos
       else if destbos =? BOS_UNKNOWN then
         (if (rmax_wstr c <? dmax) || (rmax_wstr c <? len) then fail_str ESLEMAX else after_checks)
       else if (destbos <? dmax * w) || (destbos <? len * w) then
-        (if (rmax_wstr c <? dmax) || (rmax_wstr c <? len) then handle_error c 1 dest destbos ESLEMAX ;;; Ret ESLEMAX else handle_error c 1 dest destbos EOVERFLOW ;;; Ret EOVERFLOW)
+        (* after the fix: the wide helper clears destbos / w elements (it used to be the narrow one: one byte without null-slack) *)
+        (if (rmax_wstr c <? dmax) || (rmax_wstr c <? len) then handle_error c w dest (destbos / w) ESLEMAX ;;; Ret ESLEMAX else handle_error c w dest (destbos / w) EOVERFLOW ;;; Ret EOVERFLOW)
       else after_checks).
 
 (* _wcstombs_s_chk(retvalp, dest, dmax, src, len, destbos) *)
